@@ -669,6 +669,8 @@ def _decode_file(data):
                         if ob not in layouts:
                             layouts[ob] = channel_layout(lf, fo[0])
                         lay = layouts[ob]
+                        if lay is None:
+                            raise KeyError(ob)          # layout already reported as unusable
                         need = sum(n * sz for _, _, n, sz in lay)
                         if need != len(rest):
                             f.errors.append(Err('iflr.fdata_length', frame=ob, number=fno, need=need, got=len(rest)))
@@ -677,10 +679,12 @@ def _decode_file(data):
                             for _, code, n, sz in lay:
                                 slots.append(rest[p:p + n * sz])
                                 p += n * sz
+                    except KeyError:
+                        pass
                     except DecodeError as e:
                         e.err.detail['rec'] = ri
                         f.errors.append(e.err)
-                        layouts[ob] = []
+                        layouts[ob] = None
                 frm.rows.append((fno, slots, rest, ri))
                 lf.records.append(('fdata', {'frame': ob, 'number': fno, 'rec': ri, 'head_len': c.p, 'len': len(r.body)}))
             elif r.type == 1:
